@@ -22,7 +22,18 @@ from microschc.rfc8724 import RuleNature, RuleDescriptor
 
 def one(b, rnd, stack, pkt, pd, rules, d, strat, klass, cm=None):
     if cm is None:
-        cm = ContextManager(Context(id='c', description='', interface_id='i', parser_id=stack, ruleset=rules))
+        # the parser is taken from the context, or given to the constructor as a stack name or as a parser object (then the
+        # context's own parser id is not consulted: it names another stack here)
+        how = (len(pkt) + 2 * len(rules)) % 4
+        if how == 1:
+            other = 'UDP' if stack != 'UDP' else 'CoAP'
+            cm = ContextManager(Context(id='c', description='', interface_id='i', parser_id=other, ruleset=rules), parser=str.__str__(stack))
+        elif how == 2 and stack in ('IPv6-UDP-CoAP', 'IPv4-UDP-CoAP', 'UDP', 'CoAP', 'SCTP', 'IPv6', 'IPv4'):
+            from microschc.protocol.registry import factory
+            other = 'UDP' if stack != 'UDP' else 'CoAP'
+            cm = ContextManager(Context(id='c', description='', interface_id='i', parser_id=other, ruleset=rules), parser=factory(stack))
+        else:
+            cm = ContextManager(Context(id='c', description='', interface_id='i', parser_id=stack, ruleset=rules))
     bits = b2s(pkt)
     # the strategy may be given as the enum member or as its string value (MatchStrategy is a str enum: 'first' == MatchStrategy.FIRST)
     strat_arg = strat if (len(pkt) + len(rules)) % 3 else str.__str__(strat.value)
